@@ -116,6 +116,36 @@ def run(facts, tr, rep):
                        "the call admitted on the Open->HalfOpen path is counted against the half-open budget" if ok2 else
                        "the call admitted on the Open->HalfOpen path reserves nothing: it is not counted against "
                        "permitted_calls_in_half_open")
+    # ---- the half-open episode ends: any failure re-opens, `permitted` successes close
+    dec_seen = set()
+    for (b_, cs, tgt) in cb.transition_calls():
+        name = b_.def_.split("::")[-1]
+        sbb, ssw = cb.state_arms(b_)
+        if ssw is None or not cb.in_arm(b_, sbb, ssw, "HalfOpen", cs.bb):
+            continue
+        rep.saw(b_)
+        edges = dominating_edges(tr, b_, cs.bb)
+        if name == "record_failure" and tgt == "Open":
+            dec_seen.add("fail")
+            inner = [e for e in edges if e["kind"] == "bool" and cb.in_arm(b_, sbb, ssw, "HalfOpen", e["bb"])]
+            rep.ob("C09.DECIDE", skey(b_, "halfopen-failure-reopens"), not inner, cs.where(),
+                   "any failing trial call re-opens the breaker unconditionally" if not inner else
+                   "a failing trial call re-opens the breaker only under an extra condition: trial calls keep being admitted after a failure")
+        if name == "record_success" and tgt == "Closed":
+            dec_seen.add("ok")
+            gd = False
+            for e in edges:
+                cmn = cmp_on_edge(tr, e) if e["kind"] == "bool" else None
+                if cmn and cmn[0] == "Ge" and mentions_field(tr, cmn[2], "permitted_calls_in_half_open"):
+                    gd = True
+                if cmn and cmn[0] == "Le" and mentions_field(tr, cmn[1], "permitted_calls_in_half_open"):
+                    gd = True
+            rep.ob("C09.DECIDE", skey(b_, "halfopen-success-closes"), gd, cs.where(),
+                   "the breaker closes once successes >= permitted_calls_in_half_open" if gd else
+                   "closing is not decided by successes >= permitted_calls_in_half_open")
+    rep.ob("C09.DECIDE", "%s|both-decisions" % CRATE, dec_seen == {"fail", "ok"}, "-",
+           "both half-open decisions (re-open on failure, close after the permitted successes) exist" if dec_seen == {"fail", "ok"} else
+           "half-open decisions present: %s" % sorted(dec_seen))
     # ---- the counter the closing decision reads must not be decremented while half-open
     rs = facts.bodies.get(cb.circuit_adt + "::record_success")
     close_fields = set()
